@@ -157,7 +157,12 @@ def judge_histories(ctx, hists, consts, mode, tag, budget=6):
             raise ToolError(f"trace validation {tag}: reject line {line} outside the trace")
         rnd += 1
         if rnd > budget:
-            raise ToolError(f"trace validation {tag}: more than {budget} rejected histories; first: {rejected[0][2]}")
+            # many rejections: not a tool problem but (probably) a real divergence.  Strict mode hands everything
+            # still unjudged to the contract judge; contract mode stops here with the violations it already has.
+            if mode == "strict":
+                rejected += [(idx, h, {"at": None, "ev": "unjudged-by-strict", "line": 0}) for idx, h in todo]
+            vlib.log(f"[C15] trace validation ({mode}) {tag}: rejection budget {budget} exhausted, {len(todo)} histories not judged in this mode")
+            break
     return accepted, rejected
 
 
